@@ -6,11 +6,11 @@ mkdir -p $OUT; cp $W/out/patch.diff $W/out/meta.json $OUT/ 2>/dev/null; cp $W/ou
 export CARGO_TARGET_DIR=/tmp/mut/target_$ID CARGO_NET_OFFLINE=true
 cd $W
 cargo test --offline --workspace --no-fail-fast > $OUT/suite_with_change.log 2>&1
-WITH_FAILED=$(grep -E "^test .* FAILED|^test .* failed" $OUT/suite_with_change.log | sort -u | tr '\n' ';')
+WITH_FAILED=$(grep -E "^test [^ ]+ \.\.\. FAILED" $OUT/suite_with_change.log | sort -u | tr '\n' ';')
 WITH_SUMMARY=$(grep -E "^test result" $OUT/suite_with_change.log | tr '\n' ';')
 git apply -R out/patch.diff || echo "REVERSE APPLY FAILED" >> $OUT/suite_with_change.log
 cargo test --offline --workspace --no-fail-fast > $OUT/suite_without_change.log 2>&1
-WITHOUT_FAILED=$(grep -E "^test .* FAILED|^test .* failed" $OUT/suite_without_change.log | sort -u | tr '\n' ';')
+WITHOUT_FAILED=$(grep -E "^test [^ ]+ \.\.\. FAILED" $OUT/suite_without_change.log | sort -u | tr '\n' ';')
 WITHOUT_SUMMARY=$(grep -E "^test result" $OUT/suite_without_change.log | tr '\n' ';')
 git apply out/patch.diff
 python3 - "$OUT" "$WITH_FAILED" "$WITH_SUMMARY" "$WITHOUT_FAILED" "$WITHOUT_SUMMARY" <<'PY'
